@@ -148,6 +148,11 @@ def templates(rng):
     G = dataclasses.dataclass(G)
     H = _dc(m, "Holder", {"a": G[int], "b": G[str]})
     out.append(("two specialisations of one generic class", H, [H(a=G(1), b=G("s"))], {"same-name-definitions"}))
+    # a generic class holding another generic class specialised with OTHER arguments
+    GO = types.new_class("GOuter", (DataClassDictMixin, typing.Generic[T]), {}, lambda ns: ns.update({"__annotations__": {"x": T, "v": G[str], "vs": List[G[bool]]}, "__module__": m.__name__}))
+    m.GOuter = GO
+    GO = dataclasses.dataclass(GO)
+    out.append(("generic class holding another specialisation", GO[int], [GO(1, G("s"), [G(True)])], {"generic", "same-name-definitions"}))
     m2 = _module()
     mods.append(m2.__name__)
     I1 = _dc(m, "Item", {"x": int})
